@@ -4,12 +4,13 @@ C10 -- Flux-surface advection is a field-aligned shift along z.
 import numpy as np
 from hypothesis import strategies as st
 
-from ..harness import Sub, Violation, Inconclusive, crash_is_violation
+from .. import gen
+from ..harness import Sub, Violation, Inconclusive, crash_is_violation, run_world
 from ..oracles import bspl, advect
 
 PROPERTY = "C10"
-HANG_SECONDS = 60.0
-LINE_BUDGET = 1000000000
+HANG_SECONDS = 400.0
+LINE_BUDGET = 5000000000
 RULE = ("Hypothesis-generated cases: ntheta 4-12 (periodic theta splines of degree 1-5 on the general path or the "
         "uniform-cubic path), nz 6-14, several radii and velocities of either sign (so step(f, vIdx, rIdx) indexing "
         "is exercised), dt of either sign with displacements from a fraction of a cell to many turns of the z domain, "
@@ -18,9 +19,11 @@ RULE = ("Hypothesis-generated cases: ntheta 4-12 (periodic theta splines of degr
         "periodic theta-interpolant evaluated along the field line) + metamorphic relations: constants preserved, "
         "linearity, commutation with np.roll along z, exact circular shift when iota=0 and the displacement is an "
         "exactly representable whole number of cells.  Non-trivial = non-constant f with |zeta|>dz or zeta<0, or "
-        "iota != 0; distinct = distinct case digest.")
+        "iota != 0; distinct = distinct case digest.  (grid) FluxSurfaceAdvection.gridStep on the distributed "
+        "distribution function of simulated worlds (flux_surface layout, process grids biased to a split along v) vs the "
+        "per-surface reference with each surface's own GLOBAL (r, v); non-trivial = v split over >= 2 ranks.")
 ASSUMPTIONS = ["uniform theta and z grids (what setups build)", "rotational transform constant in r (Constants.iota)",
-               "serial Layout objects (no MPI needed for step)"]
+               "serial Layout objects (no MPI needed for step)", "simulated MPI for the grid-level sub-check"]
 
 EPS = np.finfo(float).eps
 TWO_PI = 2 * np.pi
@@ -167,9 +170,71 @@ def predicate(case):
     return {"nontrivial": nontriv, "labels": sorted(set(labels)), "evals": nev}
 
 
-SUBS = {"step": Sub(predicate, strategy=cases)}
+# ------------------------------------------------------------------------------------------------
+# grid level: every (r, v) surface owned by a rank is advected with the parameters of its own global (r, v)
+# ------------------------------------------------------------------------------------------------
+@st.composite
+def grid_cases(draw, tier):
+    from .. import sim
+    cfg = draw(sim.sim_config(tier))
+    maxP = 6 if tier == "quick" else 12
+    grids = sim.admissible_grids(cfg["npts"], maxP)
+    vsplit = [g for g in grids if g[1] > 1]
+    g = draw(st.sampled_from(vsplit if vsplit and draw(st.integers(0, 4)) > 0 else grids))
+    return {"cfg": cfg, "nprocs": g, "seed": draw(st.integers(0, 2 ** 16)), "schedule": draw(gen.schedules(8))}
+
+
+def _grid_rank(ctx, c):
+    from .. import sim
+    rs = sim.RankSim(ctx.comm, c["cfg"], c["nprocs"], diagnostics=False)
+    f = rs.f
+    F = sim.equilibrium_like_field(c["cfg"], f.eta_grid, c["seed"])
+    f.setLayout('flux_surface')
+    sim.fill(f, F)
+    rs.fluxAdv.gridStep(f)
+    out = {"once": sim.piece(f)}
+    rs.fluxAdv.gridStep(f)                      # the same operator object again, on its own output
+    out["twice"] = sim.piece(f)
+    return out
+
+
+def grid_pred(c):
+    from .. import sim, gridref
+    from ..simmpi import core
+    cfg = c["cfg"]
+    P = c["nprocs"][0] * c["nprocs"][1]
+    res, w = run_world(P, _grid_rank, (c,), schedule=c["schedule"], key="C10:grid")
+    g, consts = sim.setup_distrib(core.COMM_WORLD, cfg, "v_parallel", [1, 1], save=False)
+    eta = g.eta_grid
+    ref = gridref.GridRef(eta, [g.getSpline(i) for i in range(4)], consts)
+    F = sim.equilibrium_like_field(cfg, eta, c["seed"])
+    half = consts.dt * 0.5
+    once = ref.flux(F, half)
+    scale = float(np.abs(F).max())
+    for name, want in (("once", once), ("twice", ref.flux(once, half))):
+        got = sim.assemble([r[name] for r in res], tuple(cfg["npts"]), name)
+        err = np.abs(got - want)
+        if not (err <= 1e-9 * scale).all():
+            idx = tuple(int(x) for x in np.argwhere(~(err <= 1e-9 * scale))[0])
+            raise Violation("C10:grid:" + name, "process grid %s: surface (r=%d, v=%d) node (theta=%d, z=%d) is %r; the field-aligned "
+                            "shift with that surface's global radius and velocity gives %r (|diff| %.3e, scale %.3e)"
+                            % (c["nprocs"], idx[0], idx[3], idx[1], idx[2], got[idx], want[idx], float(err[idx]), scale))
+    return {"nontrivial": c["nprocs"][1] > 1, "labels": ["P=%d" % P, "v-split" if c["nprocs"][1] > 1 else "v-whole",
+                                                          "r-split" if c["nprocs"][0] > 1 else "r-whole",
+                                                          "iota=0" if cfg["iotaVal"] == 0 else "iota!=0"], "evals": 2}
+
+
+SUBS = {"step": Sub(predicate, strategy=cases), "grid": Sub(grid_pred, strategy=grid_cases)}
+
+
+def init_worker(tier):
+    import warnings
+    from .. import sim
+    warnings.simplefilter("ignore")
+    sim.install()
 
 
 def jobs(tier):
-    n = 60 if tier == "quick" else 3500
-    return [{"sub": "step", "n": n, "shard": i} for i in range(16)]
+    n, ng = (60, 5) if tier == "quick" else (3500, 400)
+    return ([{"sub": "step", "n": n, "shard": i} for i in range(12)] +
+            [{"sub": "grid", "n": ng, "shard": i} for i in range(8)])
